@@ -103,6 +103,44 @@ def _without(E: Term, R: Term) -> Term:
     return ("comp", "set", ("tuplelit", (a, b)), ((("tuplelit", (a, b)), E, (("not", ("in", a, R)), ("not", ("in", b, R)))),))
 
 
+def _within(E: Term, N: Term) -> Term:
+    """the edges of E with both endpoints among the nodes N (the edges an induced sub-graph keeps)"""
+    a, b = _fresh("wa"), _fresh("wb")
+    return ("comp", "set", ("tuplelit", (a, b)), ((("tuplelit", (a, b)), E, (("in", a, N), ("in", b, N))),))
+
+
+def _is_nx_value(t: Term) -> bool:
+    """a plain networkx graph: the result of a networkx routine, or a denotation built here"""
+    if t[0] == "nxgraph":
+        return True
+    if t[0] == "call" and isinstance(t[1], str) and (t[1].startswith("networkx.") or t[1].startswith("nx.")):
+        return True
+    if t[0] == "meth" and t[2] == "copy" and not t[3] and not t[4]:
+        return _is_nx_value(t[1])
+    return False
+
+
+def _nx_parts(t: Term):
+    if t[0] == "nxgraph":
+        return t[1], t[2], t[3]
+    if t[0] == "meth" and t[2] == "copy":
+        return _nx_parts(t[1])
+    return ("meth", t, "nodes", (), ()), ("meth", t, "edges", (), ()), EMPTY
+
+
+def induced(t: Term) -> Term | None:
+    """X.subgraph(S) of a plain networkx graph X: the nodes of X that are in S, and the edges of X among them."""
+    if t[0] == "meth" and t[2] == "subgraph" and _is_nx_value(t[1]):
+        kw = dict(t[4])
+        S = kw.get("nodes", kw.get("vertices", t[3][0] if t[3] else None))
+        if S is None:
+            return None
+        N, E, A = _nx_parts(t[1])
+        N2 = ("inter", N if N[0] in ("union", "inter", "diff", "setof", "setlit", "comp", "bigunion") else ("setof", N), ("setof", S))
+        return ("nxgraph", N2, _within(E, N2), A)
+    return None
+
+
 def _from_edges_args(base: Term):
     if base[0] == "meth" and base[2] == "from_edges":
         args, kw = base[3], dict(base[4])
@@ -162,6 +200,8 @@ def denote(t: Term) -> Term | None:
             N, E, U = ("V", base), ("Ed", base), ("Eu", base)
         else:
             N, E, U = ("meth", base, "nodes", (), ()), ("meth", base, "edges", (), ()), EMPTY
+            if base[0] == "meth" and base[2] == "copy" and not base[3] and not base[4]:
+                N, E = ("meth", base[1], "nodes", (), ()), ("meth", base[1], "edges", (), ())  # a copy has the same nodes and edges
     else:
         return None
     A: list = []
@@ -206,8 +246,8 @@ def denote(t: Term) -> Term | None:
             if x is None:
                 return None
             R = _lift(("setlit", (x,)) if name == "remove_node" else ("setof", x), gens)
-            N = ("diff", N, R)
-            E = _without(E, R)
+            N = ("diff", N if N[0] in ("union", "inter", "diff", "setof", "setlit", "comp", "bigunion", "empty") else ("setof", N), R)
+            E = _within(E, N)  # for a well-formed graph: exactly the edges that do not touch a removed node
             if mixed:
                 return None
         else:
@@ -228,5 +268,7 @@ def post(v: Any) -> Any:
         d = denote(v)
         if d is not None:
             return (d[0],) + tuple(post(x) for x in d[1:])
-        return (v[0],) + tuple(post(x) for x in v[1:])
+        w = (v[0],) + tuple(post(x) for x in v[1:])
+        ind = induced(w)
+        return ind if ind is not None else w
     return tuple(post(x) for x in v)
